@@ -197,3 +197,64 @@ func H_foreach_object_write() {
 	}
 	same(got, ok, want, "foreach-object-write")
 }
+
+// H_for_forms: (condition form) x (increment form) x (what the body does to the counter). The
+// body may write the loop counter (skip ahead, extra increment): the increment clause then works
+// on the value the body left, and the condition is re-evaluated on the result.
+func H_for_forms() {
+	n := symx.IntRange("n", 0, 4)
+	a, b := symx.IntRange("a", 0, 4), symx.IntRange("b", 0, 2)
+	c, inc, body := symx.Choose("cond", 6), symx.Choose("incr", 5), symx.Choose("body", 5)
+	conds := []string{"$i < $n", "$i <= $n", "$i < 3", "$i <= 3", "$n > $i", "$n >= $i"}
+	incs := []string{"$i++", "++$i", "$i += 1", "$i = $i + 1", "$i += 2"}
+	bodies := []string{
+		"emit($i);",
+		"emit($i); if ($i == $a) { $i = $i + $b; }",
+		"emit($i); if ($i == $a) { $i++; }",
+		"emit($i); $i += $b;",
+		"emit($i); for ($j = 0; $j < 2; $j++) { if ($i == $a) { $i = $i + 1; } }",
+	}
+	src := "for ($i = 0; " + conds[c] + "; " + incs[inc] + ") { " + bodies[body] + " } emit(100 + $i);"
+	got, ok := run(src, map[string]int{"n": n, "a": a, "b": b})
+	cond := func(i int) bool {
+		switch c {
+		case 0, 4:
+			return i < n
+		case 1, 5:
+			return i <= n
+		case 2:
+			return i < 3
+		}
+		return i <= 3
+	}
+	var want []int
+	i := 0
+	for ; cond(i); {
+		want = append(want, i)
+		switch body {
+		case 1:
+			if i == a {
+				i += b
+			}
+		case 2:
+			if i == a {
+				i++
+			}
+		case 3:
+			i += b
+		case 4:
+			for j := 0; j < 2; j++ {
+				if i == a {
+					i++
+				}
+			}
+		}
+		if inc == 4 {
+			i += 2
+		} else {
+			i++
+		}
+	}
+	want = append(want, 100+i)
+	same(got, ok, want, "for-forms `"+src+"`")
+}
